@@ -18,9 +18,18 @@ func TestCheck(t *testing.T) {
 		scens = append(scens, crashkit.Scenario{Name: "lease", Script: "lease"})
 	}
 	genLen := runner.Pick(r, 2, 4)
-	crashkit.Deadline = r.Deadline(80*time.Second, 14*time.Minute)
+	// retention part first (in-process, own budget); the crash part's budget starts after it
+	retStart := time.Now()
+	if os.Getenv("VERIF_C01_NORET") == "" { // development knob
+		retentionPart(r, t)
+	}
+	crashkit.Deadline = r.Deadline(80*time.Second, 14*time.Minute).Add(time.Since(retStart))
 	for i := 0; i < crashkit.GenCount(genLen); i++ {
 		scens = append(scens, crashkit.Scenario{Name: fmt.Sprintf("gen%d-%d", genLen, i), Script: fmt.Sprintf("gen:%d:%d", genLen, i)})
+	}
+	if os.Getenv("VERIF_C01_ONLYRET") != "" { // development knob
+		r.NotExhaustive("development run: retention part only")
+		r.Finish()
 	}
 	if os.Getenv("VERIF_C01_ONLYCONC") == "" { // development knob
 		crashkit.Enumerate(r, scens)
